@@ -6,7 +6,8 @@ from common import show_ints, outcome
 
 PROP = 'C12'
 LEAN_TARGETS = ['Props.C12']
-REQUIRED_THEOREMS = ['Props.C12.parameters_nodup', 'Props.C12.parameters_eq_dedup_flat', 'Props.C12.mem_parameters_iff',
+REQUIRED_THEOREMS = ['Props.C12.applyOrder_setAttr_frame', 'Props.C12.updColl_frame', 'Props.C12.seqFrom_spec', 'Props.C12.seqFrom_list_order_stable',
+                     'Props.C12.parameters_nodup', 'Props.C12.parameters_eq_dedup_flat', 'Props.C12.mem_parameters_iff',
                      'Props.C12.numParams_split', 'Props.C12.setAttr_replaces', 'Props.C12.setTraining_reaches',
                      'Props.C12.sequential_order', 'Props.C12.zeroGrad_exact', 'Props.C12.setReqGrad_exact',
                      'Props.C12.applyOrder_setAttr_mod', 'Props.C12.applyOrder_setAttr_other', 'Props.C12.applyOrder_regMod']
@@ -19,7 +20,12 @@ RULE = ('random module programs: create modules/parameters, assign attributes fr
         'commute (x*a+b) and are replaced / removed / added by assignment and by register_module under numeric names: the order in '
         'which forward CALLS the members is recorded and compared with the model after every such mutation, the value with the '
         'composition. Deep chains whose ancestors have all been listed / counted / zeroed once before a nested attribute is '
-        'replaced. Non-trivial: the program shares or re-assigns at least one name.')
+        'replaced. CALLER-OWNED COLLECTIONS: OrderedDicts and lists of modules are objects of the program; containers are built from them '
+        '(Sequential(d), Sequential(*l)), the same object is used for a second / third container, and the caller adds / replaces / '
+        'removes / moves / reverses / clears its entries before, between and after the constructions, interleaved with attribute '
+        'replacement, register_module, train / eval / freeze / unfreeze / zero_grad on the containers; after every step every '
+        'container is listed, counted and run (each must depend on its own history only). '
+        'Non-trivial: the program shares or re-assigns at least one name.')
 EXHAUSTIVE = {'quick': False, 'thorough': False}
 ASSUMPTIONS = ['hierarchies are acyclic (a module is never made a descendant of itself)']
 TRUSTED_BASE = ['harness/props/c12.py (generator, canonicalisation)']
@@ -216,6 +222,103 @@ def gen_deep_program(rng):
     return ops, True
 
 
+def gen_coll_program(rng, tier):
+    """collections owned by the caller: OrderedDicts / lists of modules are created, handed to container constructors (the same object
+    to several containers), and edited by the caller at any time; the containers themselves get attributes replaced / members registered /
+    modes and flags switched.  Every container is observed after every step."""
+    nb = rng.randint(2, 5)
+    ops, npar = [], 0
+    for b in range(nb):
+        ops += ['mod new', f'mod param {rng.randint(1, 4)} {rng.randint(0, 1)}', f'mod set {b} w p{b}']; npar += 1
+    nm = nb
+    colls = []            # per collection: [is_dict, current keys (dict) / length (list)]
+    conts = {}            # container id -> names ever registered on it
+    built_from = {}       # collection -> containers built from it
+    def observe(full=False):
+        out = []
+        for q in sorted(conts):
+            out += [f'mod order {q}', f'mod params {q}']
+            if full or rng.chance(.3): out.append(f'mod num {q}')
+        if full or rng.chance(.4): out += ['mod flags', 'mod pflags']
+        return out
+    def new_coll():
+        n = rng.pick([0, 1, 2, 2, 3, 3, 4, 5])
+        ks = [rng.randrange(nm) for _ in range(n)]
+        if rng.chance(.6):
+            names = rng.sample(DNAMES, n)
+            ops.append('mod cdict ' + (','.join(f'{a}:{k}' for a, k in zip(names, ks)) or '_'))
+            colls.append([True, names])
+        else:
+            ops.append(f'mod clist {show_ints(ks)}')
+            colls.append([False, n])
+    def build(ci):
+        nonlocal nm
+        ops.append(f'mod seqc {ci}')
+        conts[nm] = list(colls[ci][1]) if colls[ci][0] else [str(i) for i in range(colls[ci][1])]
+        built_from.setdefault(ci, []).append(nm)
+        nm += 1
+    def edit(ci):
+        isd, keys = colls[ci]
+        r = rng.random()
+        if isd:
+            name = rng.pick(keys) if keys and rng.chance(.6) else rng.pick(DNAMES)
+            if r < .45:
+                ops.append(f'mod cput {ci} {name} {rng.randrange(nm)}')
+                if name not in keys: keys.append(name)
+            elif r < .65:
+                ops.append(f'mod cdel {ci} {name}')
+                if name in keys: keys.remove(name)
+            elif r < .85:
+                last = rng.randint(0, 1)
+                ops.append(f'mod cmove {ci} {name} {last}')
+                if name in keys:
+                    keys.remove(name); keys.insert(len(keys) if last else 0, name)
+            elif r < .95:
+                ops.append(f'mod crev {ci}'); keys.reverse()
+            else:
+                ops.append(f'mod cclear {ci}'); del keys[:]
+        else:
+            n = keys
+            idx = rng.randrange(n) if n and rng.chance(.7) else n + rng.randint(0, 1)
+            if r < .45:
+                ops.append(f'mod cput {ci} {idx} {rng.randrange(nm)}')
+                if idx >= n: colls[ci][1] = n + 1
+            elif r < .65:
+                ops.append(f'mod cdel {ci} {idx}')
+                if idx < n: colls[ci][1] = n - 1
+            elif r < .85:
+                ops.append(f'mod cmove {ci} {idx} {rng.randint(0, 1)}')
+            elif r < .95:
+                ops.append(f'mod crev {ci}')
+            else:
+                ops.append(f'mod cclear {ci}'); colls[ci][1] = 0
+    def touch(q):
+        names = conts[q]
+        r = rng.random()
+        name = rng.pick(names) if names and rng.chance(.7) else rng.pick([str(len(names)), rng.pick(DNAMES), rng.pick(NAMES)])
+        if r < .4: ops.append(f'mod set {q} {name} m{rng.randrange(q)}')
+        elif r < .55: ops.append(f'mod regm {q} {name} {rng.randrange(q)}')
+        elif r < .65: ops.append(f'mod set {q} {name} {rng.pick(["none", "other"])}')
+        elif r < .72: ops.append(f'mod set {q} {name} p{rng.randrange(npar)}')
+        else:
+            ops.append(f'mod {rng.pick(["freeze", "unfreeze", "eval", "train", "zero"])} {q}'); return
+        if name not in names: names.append(name)
+    new_coll(); build(0)
+    if rng.chance(.7): build(0)                    # the same object handed to a second container straight away
+    ops.extend(observe(True))
+    for _ in range(rng.randint(4, 10 if tier == 'quick' else 20)):
+        r = rng.random()
+        if r < .12: new_coll()
+        elif r < .37:
+            used = sorted(built_from)
+            build(rng.pick(used) if used and rng.chance(.7) else rng.randrange(len(colls)))
+        elif r < .67: edit(rng.pick(sorted(built_from)) if rng.chance(.8) else rng.randrange(len(colls)))
+        else: touch(rng.pick(sorted(conts)))
+        ops.extend(observe())
+    ops.extend(observe(True))
+    return ops, True
+
+
 def cases(rng, tier):
     out = []
     n = 150 if tier == 'quick' else 4000
@@ -231,6 +334,9 @@ def cases(rng, tier):
     for i in range(30 if tier == 'quick' else 600):
         ops, nt = gen_deep_program(rng)
         out.append({'lines': ops, 'nt': nt, 'family': 'deep-chain', 'desc': ' ; '.join(ops[:40])})
+    for i in range(40 if tier == 'quick' else 800):
+        ops, nt = gen_coll_program(rng, tier)
+        out.append({'lines': ops, 'nt': nt, 'family': 'caller-collection', 'desc': ' ; '.join(ops[:40])})
     # corpus: minimal programs for each past defect
     corpus = [
         ['mod new', 'mod param 3 1', 'mod set 0 a p0', 'mod set 0 b p0', 'mod params 0', 'mod num 0'],
@@ -250,6 +356,12 @@ def cases(rng, tier):
         ['mod new', 'mod new', 'mod param 3 1', 'mod param 5 0', 'mod set 0 w p1', 'mod set 1 a m0', 'mod regp 1 a 0'] + tail(1),
         ['mod new', 'mod new', 'mod new', 'mod param 2 1', 'mod param 4 1', 'mod set 0 w p0', 'mod set 2 _fc m0', 'mod set 2 A1 p1', 'mod regp 2 _fc 1', 'mod regm 2 A1 1'] + tail(2),
     ]
+    # one OrderedDict / list of the caller handed to two containers; an attribute of one replaced; the caller edits the collection
+    for first, e1, e2, e3 in (('mod cdict fc:0,act:1,out:0', 'extra', 'fc', 'act'), ('mod clist 0,1,0', '3', '0', '1')):
+        corpus.append(['mod new', 'mod new', 'mod new', 'mod param 2 1', 'mod param 3 1', 'mod param 4 1', 'mod set 0 w p0', 'mod set 1 w p1', 'mod set 2 w p2', first,
+                       'mod seqc 0', 'mod seqc 0', 'mod set 4 out m2', 'mod set 4 2 m2', 'mod order 3', 'mod params 3', 'mod num 3', 'mod order 4', 'mod params 4',
+                       f'mod cput 0 {e1} 2', f'mod cdel 0 {e2}', f'mod cmove 0 {e3} 1', 'mod cput 0 0 2', 'mod order 3', 'mod params 3', 'mod order 4', 'mod params 4',
+                       'mod freeze 4', 'mod pflags', 'mod eval 3', 'mod flags', 'mod seqc 0', 'mod order 5', 'mod params 5', 'mod order 3'])
     for ops in corpus:
         out.append({'lines': ops, 'nt': True, 'desc': ' ; '.join(ops)})
     return out
@@ -262,6 +374,7 @@ class World:
         self.nn = nn
         self.sg = sg
         self.mods, self.pars, self.log = [], [], []
+        self.colls = []          # OrderedDicts / lists owned by the calling program
         self.depth, self.last_order = 0, None
         w = self
         class M(nn.Module):
@@ -310,6 +423,39 @@ class World:
         if t[0] == 'seqd':
             d = OrderedDict() if t[1] == '_' else OrderedDict((nk.split(':')[0], self.mods[int(nk.split(':')[1])]) for nk in t[1].split(','))
             self.mods.append(self.S(d)); return f'm{len(self.mods) - 1}'
+        if t[0] == 'cdict':
+            self.colls.append(OrderedDict() if t[1] == '_' else OrderedDict((nk.split(':')[0], self.mods[int(nk.split(':')[1])]) for nk in t[1].split(',')))
+            return f'c{len(self.colls) - 1}'
+        if t[0] == 'clist':
+            self.colls.append([self.mods[k] for k in common.parse_ints(t[1])]); return f'c{len(self.colls) - 1}'
+        if t[0] == 'seqc':          # the caller's object itself goes into the constructor
+            c = self.colls[int(t[1])]
+            self.mods.append(self.S(c) if isinstance(c, OrderedDict) else self.S(*c)); return f'm{len(self.mods) - 1}'
+        if t[0] in ('cput', 'cdel', 'cmove', 'cclear', 'crev'):
+            c = self.colls[int(t[1])]
+            if isinstance(c, OrderedDict):
+                if t[0] == 'cput': c[t[2]] = self.mods[int(t[3])]
+                elif t[0] == 'cdel': c.pop(t[2], None)
+                elif t[0] == 'cmove':
+                    if t[2] in c: c.move_to_end(t[2], last=bool(int(t[3])))
+                elif t[0] == 'cclear': c.clear()
+                else:
+                    for k in reversed(list(c)): c.move_to_end(k)
+            else:
+                i = int(t[2]) if len(t) > 2 else 0
+                if t[0] == 'cput':
+                    if i < len(c): c[i] = self.mods[int(t[3])]
+                    else: c.append(self.mods[int(t[3])])
+                elif t[0] == 'cdel':
+                    if i < len(c): del c[i]
+                elif t[0] == 'cmove':
+                    if i < len(c):
+                        e = c.pop(i)
+                        if int(t[3]): c.append(e)
+                        else: c.insert(0, e)
+                elif t[0] == 'cclear': del c[:]
+                else: c.reverse()
+            return 'ok'
         if t[0] == 'gset':          # p.grad = Tensor(full(v)) through the public setter
             P = self.pars[int(t[1])]
             P.grad = self.sg.Tensor(np.full(P.shape, float(t[2]), dtype=P.data.dtype)); return 'ok'
@@ -370,11 +516,23 @@ def distribution(cases):
     for c in cases:
         if c.get('family'): inc('family:' + c['family'])
         seqs, mutated = set(), set()
+        colls = []
         nm = 0
         for l in c['lines']:
             t = l.split(' ')
             inc(t[1])
             if t[1] == 'new': nm += 1
+            if t[1] in ('cdict', 'clist'): colls.append([t[1][1:], 0, False])
+            if t[1] == 'seqc':
+                k = colls[int(t[2])]
+                k[1] += 1
+                inc(f'container built from a caller-owned {k[0]}' + (' that was edited before' if k[2] else ''))
+                if k[1] >= 2: inc(f'caller-owned {k[0]} handed to a 2nd+ container')
+                seqs.add(nm); nm += 1
+            if t[1] in ('cput', 'cdel', 'cmove', 'cclear', 'crev'):
+                k = colls[int(t[2])]
+                k[2] = True
+                inc(f'caller edits its {k[0]} ({t[1][1:]}) ' + ('after' if k[1] else 'before') + ' a container was built from it' + (' (shared by several)' if k[1] >= 2 else ''))
             if t[1] in ('seq', 'seqd'):
                 n = 0 if t[2] == '_' else len(t[2].split(','))
                 inc('container members: ' + ('0-3' if n <= 3 else '4-10' if n <= 10 else '11-14' if n <= 14 else '15-99' if n < 100 else '>=100'))
@@ -403,9 +561,32 @@ class Registry:
     register_module / register_parameter on a name of the same kind replaces the entry where it stands"""
     def __init__(self):
         self.subs, self.pars = [], []
+        self.colls = []          # the caller's collections: [is_dict, [(name, module)]]
 
     def run(self, t):
-        if t[0] == 'new':
+        if t[0] == 'cdict':
+            self.colls.append([True, [] if t[1] == '_' else [(nk.split(':')[0], int(nk.split(':')[1])) for nk in t[1].split(',')]])
+        elif t[0] == 'clist':
+            self.colls.append([False, [('', k) for k in common.parse_ints(t[1])]])
+        elif t[0] == 'seqc':        # a container registers the entries the collection holds NOW, one by one, in its own registry
+            isd, items = self.colls[int(t[1])]
+            self.subs.append([]); self.pars.append([])
+            for i, (n, k) in enumerate(items): self.reg(self.subs, self.pars, len(self.subs) - 1, n if isd else str(i), k)
+        elif t[0] in ('cput', 'cdel', 'cmove', 'cclear', 'crev'):
+            c = self.colls[int(t[1])]
+            items = c[1]
+            if t[0] == 'cclear': c[1] = []
+            elif t[0] == 'crev': c[1] = items[::-1]
+            else:
+                pos = next((j for j, e in enumerate(items) if e[0] == t[2]), None) if c[0] else (int(t[2]) if int(t[2]) < len(items) else None)
+                if t[0] == 'cput':
+                    e = (t[2] if c[0] else '', int(t[3]))
+                    if pos is None: items.append(e)
+                    else: items[pos] = e
+                elif pos is not None:
+                    e = items.pop(pos)
+                    if t[0] == 'cmove': items.insert(len(items) if int(t[3]) else 0, e)
+        elif t[0] == 'new':
             self.subs.append([]); self.pars.append([])
         elif t[0] in ('seq', 'seqd'):
             self.subs.append([]); self.pars.append([])
@@ -443,7 +624,7 @@ def oracle(c):
         reg.run(t[1:])
         if r == 'not-composition':
             return {'key': {'class': r}, 'case': {'lines': c['lines'][:li + 1]}, 'what': 'Sequential forward: the result is not the composition of the members in the order in which they were called'}
-        if t[1] == 'order':
+        if t[1] == 'order' and r != 'rejected':
             called, listed = w.last_order
             want = [k for _, k in reg.subs[int(t[2])]]
             if called != want or listed != want:
